@@ -1,7 +1,35 @@
 //! lpverif — correspondence harness and property monitors for public-awesome/launchpad.
 //! Usage: lpverif <property> --seed N --tier quick|thorough --out DIR [--replay FILE]
 mod util;
+mod chain;
+mod w_whitelist;
+mod w_collection;
+mod w_sale;
+mod w_factory;
+mod w_splits;
+mod w_merkle;
+mod w_airdrop;
+mod w_migrate;
+mod c01;
+mod c02;
+mod c03;
+mod c04;
+mod c05;
 mod c06;
+mod c07;
+mod c08;
+mod c09;
+mod c10;
+mod c11;
+mod c12;
+mod c13;
+mod c14;
+mod c15;
+mod c16;
+mod c17;
+mod c18;
+mod c19;
+mod c20;
 
 use std::path::PathBuf;
 
@@ -51,7 +79,26 @@ fn main() {
         }
     }
     match prop.as_str() {
+        "C01" => c01::run(&a),
+        "C02" => c02::run(&a),
+        "C03" => c03::run(&a),
+        "C04" => c04::run(&a),
+        "C05" => c05::run(&a),
         "C06" => c06::run(&a),
+        "C07" => c07::run(&a),
+        "C08" => c08::run(&a),
+        "C09" => c09::run(&a),
+        "C10" => c10::run(&a),
+        "C11" => c11::run(&a),
+        "C12" => c12::run(&a),
+        "C13" => c13::run(&a),
+        "C14" => c14::run(&a),
+        "C15" => c15::run(&a),
+        "C16" => c16::run(&a),
+        "C17" => c17::run(&a),
+        "C18" => c18::run(&a),
+        "C19" => c19::run(&a),
+        "C20" => c20::run(&a),
         _ => {
             eprintln!("property {} has no harness module", prop);
             std::process::exit(2);
